@@ -6,6 +6,7 @@ from vf import observe
 from vf.sim import State, W
 
 ESP = 3
+STUCK_BOUND = 45.0     # virtual seconds; the built-in retransmission budget ends 20 s after the first transmission
 REQ_SENT = {s.name for s in State if s.name.endswith('_REQ_SENT')}
 ESTAB_FAMILY = {s.name for s in State if 10 <= s.value <= 17}
 
@@ -103,6 +104,7 @@ class TableMonitor:
         self.seen = {}       # ep -> {oid: object}  (strong refs: ids stay unique)
         self.gone = {}       # ep -> set(oid)
         self.flagged = set()
+        self.waiting = {}    # oid -> (state, my_msg_id, vtime since)
 
     def on_step(self, sim, ep, rec):
         ck = self.ck
@@ -142,6 +144,22 @@ class TableMonitor:
                     self.flagged.add((ep.name, 'succ'))
                     ck.violation(f'table-successor-count:{cnt}@{ctx_of(rec)}',
                                  {'table': [(y.my_spi.hex(), y.state.name) for y in table], 'trace': sim.trace[-12:]}, getattr(sim, 'case', None))
+        # an IKE_SA whose request stays unanswered ends by retransmission timeout (2+4+6+8 s after the first transmission)
+        # and must then leave the table: nothing may sit in a *_REQ_SENT state for longer than that (bound: 20 s + slack)
+        for x in table:
+            st = x.state.name
+            if st in REQ_SENT:
+                w = self.waiting.get(id(x))
+                if w is None or w[0] != st or w[1] != x.my_msg_id:
+                    self.waiting[id(x)] = (st, x.my_msg_id, rec.vtime)
+                elif rec.vtime - w[2] > STUCK_BOUND and (ep.name, 'stuck') not in self.flagged:
+                    self.flagged.add((ep.name, 'stuck'))
+                    ck.violation(f'table-keeps-ike-sa-beyond-retransmission-timeout:{st}',
+                                 {'waiting_s': rec.vtime - w[2], 'retransmissions': x.retransmissions, 'trace': sim.trace[-12:]}, getattr(sim, 'case', None))
+                else:
+                    ck.count('table.waiting_checks')
+            else:
+                self.waiting.pop(id(x), None)
         # an IKE_SA that ended takes its kernel SAs with it (checked by SadMonitor) and leaves the table
         if rec.kind == 'udp' and rec.routed:
             ck.count('table.routed_steps')
